@@ -24,6 +24,11 @@ Transcribes
 * `runApp` = `web._run_app`: `await runner.setup()` stands *before* the `try`; site start
   and the serve-forever sleep are inside; `finally: await runner.cleanup()`.
 
+The log has a begin and an end event for every teardown and every signal handler (the
+real callbacks suspend in between), so that sequential execution — `for it in
+reversed(self._exits): await it.__aexit__(…)`, `for receiver in self: await receiver(…)` —
+is observable and distinguishable from a concurrent one.
+
 Every user callback is an oracle `Fail` (`ok` | raises an `Exception` | raises
 `CancelledError`).  Connection handling during `cleanup` is part 2 (`C20Drain.lean`).
 -/
@@ -83,8 +88,10 @@ deriving DecidableEq, Repr
 inductive Ev where
   | enter (a i : Nat)          -- start-up code of context `i` of application `a` begins
   | entered (a i : Nat)        -- … completed
-  | exit (a i : Nat)           -- its cleanup code runs
+  | exit (a i : Nat)           -- its cleanup code begins
+  | exitEnd (a i : Nat)        -- its cleanup code is over (returned or raised)
   | sig (s : Sig) (id : Nat)   -- a signal handler is called
+  | sigEnd (s : Sig) (id : Nat) -- … is over (returned or raised)
 deriving DecidableEq, Repr
 
 /-- `CleanupContext._exits` of every application: indices of the entered contexts -/
@@ -146,7 +153,7 @@ def exitAll (a : Nat) (cs : List Ctx) : List Nat → List Ev × List Origin
   | [] => ([], [])
   | i :: rest =>
     let r := exitAll a cs rest
-    (.exit a i :: r.1, if exitFail cs i = .ok then r.2 else .exit a i :: r.2)
+    (.exit a i :: .exitEnd a i :: r.1, if exitFail cs i = .ok then r.2 else .exit a i :: r.2)
 
 def raiseCollected : List Origin → Option Err
   | [] => none
@@ -166,7 +173,7 @@ structure Out where
   err : Option Err
 
 def runStep (tbl : List AppDef) (s : Sig) (X : Exits) : Step → Out
-  | .h id f => ⟨[.sig s id], X, if f = .ok then none else some (.user (.sig s id))⟩
+  | .h id f => ⟨[.sig s id, .sigEnd s id], X, if f = .ok then none else some (.user (.sig s id))⟩
   | .grp a =>
     match s with
     | .startup =>
@@ -267,6 +274,19 @@ def exitsOf (l : List Ev) : List (Nat × Nat) :=
   l.filterMap (fun e => match e with
     | .exit a i => some (a, i)
     | _ => none)
+
+/-- teardowns never overlap and nothing else happens inside one: reading the log with
+"no teardown open" / "teardown of (a, i) open", every `exit` is closed by its own `exitEnd`
+before anything else is logged -/
+def nestedFrom : Option (Nat × Nat) → List Ev → Bool
+  | st, [] => st.isNone
+  | st, e :: t =>
+    match st, e with
+    | none, .exit a i => nestedFrom (some (a, i)) t
+    | some p, .exitEnd a i => p == (a, i) && nestedFrom none t
+    | none, .exitEnd _ _ => false
+    | some _, _ => false
+    | none, _ => nestedFrom none t
 
 def groupsOf (l : List Step) : List Nat :=
   l.filterMap (fun st => match st with
